@@ -806,7 +806,14 @@ def eval_c13(batches, tier, seed, known, info):
             continue
         sops = [json.dumps(o, sort_keys=True) for o in b['ops']]
         if [json.dumps(json.loads(l), sort_keys=True) for l in tops] != sops:
-            out['tie_breaks'].append({'batch': b['dir'], 'diff': 'twin generated different operations'})
+            # the operations are generated from the run-time schema: different operations mean different schemas
+            sa = {o['type']: r.get('attrs') for o, r in zip(b['ops'], b['impl']) if o.get('op') == 'schema'}
+            sb = {json.loads(o)['type']: r.get('attrs') for o, r in zip(tops, timpl) if json.loads(o).get('op') == 'schema'}
+            d = first_diff(sa, sb)
+            if d:
+                out['violations'].append({'kind': 'the separate-package variant has a different schema than the same-package variant', 'batch': b['dir'], 'twin': twin_dir, 'diff': d})
+            else:
+                out['tie_breaks'].append({'batch': b['dir'], 'diff': 'twin generated different operations'})
             continue
         pairs += len(sops)
         for op, a, t in zip(b['ops'], b['impl'], timpl):
@@ -821,4 +828,16 @@ def eval_c13(batches, tier, seed, known, info):
     return out
 
 
-EVALUATORS.update({'C11': eval_c11, 'C12': eval_c12, 'C13': eval_c13, 'C15': eval_c15, 'C18': eval_c18})
+def eval_c17(batches, tier, seed, known, info):
+    out = eval_schema('C17')(batches, tier, seed, known, info)
+    import re
+    for b in batches:
+        if b['status'].get('stage') == 'build':
+            m = re.findall(r'undefined: ((?:GenSchema|CopyFrom|CopyTo)\w+)', b['status'].get('error', ''))
+            if m:
+                out['violations'].append({'kind': 'the generated code calls hook functions that do not follow the suffix rule', 'batch': b['dir'],
+                                          'undefined': sorted(set(m)), 'hooks_provided': [h['Suffix'] for h in (b['meta'] or {}).get('Hooks', [])]})
+    return out
+
+
+EVALUATORS.update({'C17': eval_c17, 'C11': eval_c11, 'C12': eval_c12, 'C13': eval_c13, 'C15': eval_c15, 'C18': eval_c18})
